@@ -22,12 +22,14 @@ PROP = dict(
                 "run over the calls (= C02's needs_save and a successful save, proved); calls made while the state directory is unreachable; list/get/info calls), and at the end of "
                 "every timeline the newest acknowledged upload is byte-identical to the live file whenever the model has caught up. Restarts (an earlier lifetime wrote the file; db.Open of the existing file; no or later calls) and the task as wired by the real "
                 "server.New (Config.BackupBucket/Region, Config.DB or DBPath+Key+AuditLog, the context New hands to the task; object store on a loopback socket; real time) are part of every run; "
-                "C17_first_round_uploads: 'nothing uploaded yet' differs from every generation a just-opened database reports."),
+                "C17_first_round_uploads: 'nothing uploaded yet' differs from every generation a just-opened database reports. Failing READS of the database file at backup instants "
+                "(file moved aside / a directory in its place, virtual time and once in real time): C17_read_failure - nothing is sent, the generation is not recorded, retried one period later; "
+                "a zero-length object is a direct violation."),
     level_note=("Trusted: Coq kernel+VM, testing/synctest's virtual clock, the AWS SDK request path; a read of the live file returning one complete version rests on C04 "
                 "(atomic replacement) and is tested here by hashing; CPU spinning is detected by a real-time watchdog (virtual time cannot advance), the number of "
                 "WriteGen calls itself is not observable without a further hook; no two timeline events fall on the same virtual instant (generator)."),
     trusted_extra=["loopback TCP inside the harness process and the AWS SDK's environment configuration (AWS_ENDPOINT_URL) for the scenarios through server.New; real-time instants snapped to the minute grid (lag <= 3.5 s) by the harness"],
-    rule=("260 generated timelines (thorough 6000) of kinds bursts / idle-hours / failures / racing / slow-uploads / cancel-early / mixed / failed-writes (every kind mixes in ~12 % failing write attempts and ~12 % reads; "
+    rule=("260 generated timelines (thorough 6000) of kinds bursts / idle-hours / failures / racing / slow-uploads / cancel-early / mixed / failed-writes / read-faults (the file unreadable for 2 ms around whole minutes, also mixed into a fifth of the others) (every kind mixes in ~12 % failing write attempts and ~12 % reads; "
           "failed-writes: 45 % / 30 %); one case = one run of the task "
           "from start to cancellation (a quarter of them restarts: the file exists when db.Open runs, 40 % of those with no call in this lifetime); plus 9 real-time scenarios in which the task is started by the real server.New with a bucket configured; non-trivial if it has >= 3 uploads and >= 2 mutating calls, or >= 2 failing calls; distinct by timeline"),
     explain=("the uploads the object store received (instants, file versions, acknowledgements) or the instant the task returned differ from the model of the backup loop "
